@@ -25,6 +25,10 @@ theorem ownerAt_congr (t1 t2 : Tree) (h : t1.wins = t2.wins) (L C : Int) : owner
   rw [h]
   exact ownerLoc_congr t1 t2 h _ _ _ _
 
+theorem rootOk_congr {t1 t2 : Tree} (h : t2.wins = t1.wins) (hr : RootOk t1) : RootOk t2 := by
+  obtain ⟨w, hw⟩ := hr.ex
+  exact ⟨⟨w, by rw [h]; exact hw⟩⟩
+
 theorem rendered_wins (t : Tree) : (rendered t).wins = t.wins := rfl
 
 /-- `flushRender` either has nothing to render or runs `exposeRects` on a fresh buffer of the root's size. -/
